@@ -55,7 +55,7 @@ def model(tag, deviations, design=False):
 
 
 def sessions(jobs):
-    p = subprocess.run([os.path.join(vlib.BIN, "session")], input="\n".join(json.dumps(j) for j in jobs) + "\n",
+    p = subprocess.run([vlib.bin_path("session")], input="\n".join(json.dumps(j) for j in jobs) + "\n",
                        stdout=subprocess.PIPE, stderr=subprocess.DEVNULL, text=True, timeout=1800)
     if p.returncode != 0:
         raise ToolError(f"session replay binary failed rc={p.returncode}")
